@@ -505,12 +505,15 @@ func (sc *scenario) eligible(e *env, p *pool, id int, remote string, needMEV boo
 		inSnap = true
 		for _, ci := range v.ExternalChainInfos {
 			if ci.ChainReferenceID == sc.chain {
+				// one entry per address (C10): remote and trait come from the same entry; if a
+				// hostile snapshot repeats an address they may come from two of its entries
+				// (theorem assignee_eligible_any_snapshot)
 				if remote == "" || ci.Address == remote {
 					acct = true
-					for _, tr := range ci.Traits {
-						if tr == valsettypes.PIGEON_TRAIT_MEV {
-							mev = true
-						}
+				}
+				for _, tr := range ci.Traits {
+					if tr == valsettypes.PIGEON_TRAIT_MEV {
+						mev = true
 					}
 				}
 				break
@@ -1181,6 +1184,43 @@ func doQueue(t *testing.T, run *emit.Run, p *pool, r *rand.Rand, hostile bool) {
 			}
 			offs = append(offs, emit.List(oid))
 		}
+		// completeness side of the oracle: a message meeting every condition is offered to its assignee
+		if !foreign {
+			for _, me := range rows {
+				if me.pad || me.er || (me.req && me.est == 0) {
+					continue
+				}
+				held := false
+				for _, o := range rows {
+					if o.id >= me.id {
+						continue
+					}
+					if o.m.kind == "vu" {
+						held = true
+					}
+					if me.m.kind == "slc" && me.m.sender != "" && o.m.kind == "slc" && o.m.sender == me.m.sender && !o.pad && !o.er {
+						held = true
+					}
+				}
+				if held {
+					continue
+				}
+				off, err := e.cons.GetMessagesForRelaying(e.ctx, qn, p.addrs[p.id[me.assignee]])
+				if err != nil {
+					t.Fatal(err)
+				}
+				found := false
+				for _, m := range off {
+					if m.GetId() == me.id {
+						found = true
+					}
+				}
+				if !found {
+					run.Violate("C14:relayable-message-withheld", fmt.Sprintf("message %d meets every condition but is not offered to its assignee #%d", me.id, p.id[me.assignee]),
+						map[string]any{"kind": "queue", "config": cfg, "nv": nv, "steps": append(append([]string{}, steps...), opS), "message": me.id})
+				}
+			}
+		}
 		steps = append(steps, emit.Pair(opS, emit.Pair(emit.List(obs), emit.List(offs))))
 	}
 	run.Count("queue-kind", map[bool]string{true: "foreign", false: "turnstone"}[foreign])
@@ -1209,6 +1249,7 @@ func TestCorr(t *testing.T) {
 		nQueue += nRank
 	}
 	replayCorpus(t, run, p)
+	doReassign(t, run, p)
 	for i := 0; i < nDec; i++ {
 		doDec(run, r)
 	}
